@@ -7,5 +7,5 @@ CONSTANTS
   FE = 1
 SPECIFICATION SplitSpec
 CHECK_DEADLOCK FALSE
-INVARIANTS TypeOK LoopInv Disjoint ExactCover Chain SameAsSplit Bounded MatchIff ChainSound
+INVARIANTS TypeOK LoopInv Disjoint ExactCover Chain SameAsSplit Bounded MatchIff ChainSound EnumCountOK
 PROPERTY Termination
